@@ -65,6 +65,7 @@ func (c SyncCase) String() string {
 // SyncObs is everything observable about one transfer.
 type SyncObs struct {
 	Merge  bool // the transfer ran in merge mode (no comparison with the old destination)
+	Filter bool // a receiver-side Filter rewrote ownership: what is stored differs from what was announced by design
 	Res    xfer.Result
 	View   fsmodel.Tree // what the source looks like (independent snapshot)
 	Before fsmodel.Tree
@@ -111,7 +112,7 @@ func (d *syncDirs) transfer(c SyncCase, srcTree fsmodel.Tree) *SyncObs {
 }
 
 func (d *syncDirs) transferFault(c SyncCase, srcTree fsmodel.Tree, fault xfer.Fault) *SyncObs {
-	o := &SyncObs{Merge: c.Merge}
+	o := &SyncObs{Merge: c.Merge, Filter: c.FilterUID || c.FilterShift}
 	var err error
 	if o.Before, err = fsmodel.Snapshot(d.dst); err != nil {
 		o.Err = err.Error()
